@@ -147,8 +147,8 @@ pub fn display_oracle(case: &Case, idx: i64, cfg: &Config, rm: &RefModel, c: &Co
     if let Some(is) = issues.iter().find(|i| matches!(i, Issue::OobWrite { .. } | Issue::WindowBad { .. } | Issue::PartialPixel { .. })) {
         return v("malformed-traffic", format!("{:?}", is));
     }
-    if !c.mem.is_dense() {
-        // giant framebuffer: probe the frame and the corners only
+    if !c.mem.is_dense() && cfg.w as u64 * cfg.h as u64 > (1 << 22) {
+        // too large to read back cell by cell
         return None;
     }
     let (lw, lh, pic) = logical_picture(&c.mem, cfg.w as u32, cfg.h as u32, cfg.ox as u32, cfg.oy as u32, rm.orient);
